@@ -177,8 +177,88 @@ pub fn stress_shapes(ctx: &mut Ctx, reps: u64) {
         }
         ops.push(Op::Response { tid: 1, from: 2, error: false, seal: *rng.pick(&[RespSeal::Sha1(0), RespSeal::Sha256(0, 32), RespSeal::Sha256(0, 16), RespSeal::Both(0)]), fp: true });
         run_plain(ctx, &History { tcp: false, remote0: None, remote_addr: None, ops });
-        ctx.count_n("stress-histories", 8);
+        run_plain(ctx, &gen_extended_schedule(&mut rng));
+        ctx.count("schedule-extended-after-last-transmission");
+        run_plain(ctx, &gen_staggered_service(&mut rng));
+        ctx.count("staggered-service-histories");
+        ctx.count_n("stress-histories", 10);
     }
+    for _ in 0..(reps / 16).max(2) {
+        let h = gen_many_peers(&mut rng);
+        run_plain(ctx, &h);
+        ctx.count("many-peers-histories");
+    }
+}
+
+/// (7) the schedule is extended after its last transmission went out (and again later): the later
+///     retransmissions must still carry the request
+pub fn gen_extended_schedule(rng: &mut crate::prng::Rng) -> History {
+    let n1 = rng.below(3) as u32;
+    let n2 = n1 + 1 + rng.below(4) as u32;
+    let rto = 1 + rng.below(400);
+    let mut ops = vec![req(3, (rng.below(NCORE as u64)) as u8, *rng.pick(&[Sealing::None, Sealing::Sha1]), 10), Op::Configure { tid: 3, rto, n: n1, last: 5_000 + rng.below(5_000) }];
+    for _ in 0..n1 + 1 {
+        ops.push(Op::Poll(PollAt::AtWait));
+    }
+    // now waiting for the final timeout: extend
+    ops.push(Op::Poll(PollAt::Half));
+    ops.push(Op::Configure { tid: 3, rto: 1 + rng.below(400), n: n2, last: rng.below(3_000) });
+    for _ in 0..(n2 - n1) as usize + 2 {
+        ops.push(Op::Poll(PollAt::AtWait));
+    }
+    ops.push(Op::Configure { tid: 3, rto, n: n2 + 2, last: 100 });
+    for _ in 0..5 {
+        ops.push(Op::Poll(PollAt::AtWait));
+    }
+    History { tcp: false, remote0: None, remote_addr: None, ops }
+}
+
+/// (8) several transactions due at one instant, served by polls at *different* instants: each
+///     schedule continues from the instant its own transmission was handed out
+pub fn gen_staggered_service(rng: &mut crate::prng::Rng) -> History {
+    let n = 2 + rng.below(3) as u8;
+    let mut ops: Vec<Op> = (0..n).map(|i| req(i, i % NCORE as u8, Sealing::None, 20 + i as u16)).collect();
+    if rng.chance(1, 2) {
+        for i in 0..n {
+            ops.push(Op::Configure { tid: i, rto: 300, n: 3, last: 900 });
+        }
+    }
+    ops.push(Op::Poll(PollAt::AtWait));
+    for _ in 0..(n as usize * 5) {
+        ops.push(Op::Poll(*rng.pick(&[PollAt::After(1), PollAt::After(50), PollAt::After(200), PollAt::After(777), PollAt::Now, PollAt::AtWait])));
+    }
+    for _ in 0..(n as usize * 4) {
+        ops.push(Op::Poll(PollAt::AtWait));
+    }
+    History { tcp: false, remote0: None, remote_addr: None, ops }
+}
+
+/// (9) many distinct peers: messages accepted from 70..=240 different source addresses; every one
+///     of them must be (and stay) validated, none of the others may be.
+pub fn gen_many_peers(rng: &mut crate::prng::Rng) -> History {
+    let npeers = 70 + rng.usize(171);
+    let first = NCORE + rng.usize(NADDR - NCORE - npeers + 1);
+    let mut ops = vec![];
+    for k in 0..npeers {
+        let from = (first + k) as u8;
+        match rng.below(4) {
+            0 | 1 => ops.push(Op::Incoming { request: rng.chance(1, 2), tid: rng.below(NTID as u64) as u8, from }),
+            2 => {
+                let tid = (k % 4) as u8;
+                ops.push(req(tid, from, Sealing::None, k as u16));
+                ops.push(Op::Response { tid, from, error: false, seal: RespSeal::Unsigned, fp: false });
+            }
+            _ => {
+                // a dropped response (unknown id) from a peer validates nothing
+                ops.push(Op::Response { tid: 7, from, error: false, seal: RespSeal::Unsigned, fp: false });
+            }
+        }
+        if rng.chance(1, 10) {
+            ops.push(Op::Poll(PollAt::AtWait));
+        }
+    }
+    ops.push(Op::Poll(PollAt::AtWait));
+    History { tcp: rng.chance(1, 3), remote0: None, remote_addr: None, ops }
 }
 
 /// configurations x poll schedules for one to four overlapping transactions (C06)
@@ -436,6 +516,17 @@ pub fn run_c20(ctx: &mut Ctx) {
             ctx.sample("history", || json!({"operations": len, "shift_ms": shift, "first_operations": History { tcp: h.tcp, remote0: h.remote0, remote_addr: h.remote_addr, ops: h.ops.iter().take(10).cloned().collect() }.to_json()}));
         }
     }
+    // shapes: staggered service of simultaneously due transactions, many distinct peers, schedule extension
+    let nshape = ctx.n(640, 6_400);
+    for i in 0..nshape {
+        let h = match i % 8 {
+            0 => gen_many_peers(&mut rng),
+            1 | 2 => gen_extended_schedule(&mut rng),
+            _ => gen_staggered_service(&mut rng),
+        };
+        check_c20_history(ctx, &h, 1 + rng.below(1_000_000), i % 32 == 0);
+        ctx.count("shape-histories");
+    }
     // the enumerated small scope, each history replayed shifted
     let mut gi = 0u64;
     let a = small_alphabet();
@@ -453,6 +544,8 @@ pub fn run_c20(ctx: &mut Ctx) {
         }
     }
     ctx.require("histories-compared", 1_000);
+    ctx.require("non-drain-model-runs", 1_000);
+    ctx.require("shape-histories", 100);
     ctx.require("variant-runs", 5_000);
     ctx.require("threaded-runs", 50);
     if !cfg!(miri) {
@@ -464,9 +557,10 @@ pub fn run_c20(ctx: &mut Ctx) {
 pub fn check_c20_history(ctx: &mut Ctx, h: &History, shift: u64, threads: bool) {
     ctx.eval();
     ctx.distinct(hist_key(h));
-    let base_cfg = RunCfg { drain_polls: true, trap_clock: true, ..Default::default() };
+    let base_cfg = RunCfg { drain_polls: true, trap_clock: true, log_observations: true, ..Default::default() };
     let base = run_history(ctx, h, &base_cfg);
     ctx.count("histories-compared");
+    check_no_interference(ctx, h);
     let variants: Vec<(&str, RunCfg)> = vec![
         ("shifted", RunCfg { shift_ms: shift, ..base_cfg.clone() }),
         ("second-instance", base_cfg.clone()),
@@ -486,7 +580,7 @@ pub fn check_c20_history(ctx: &mut Ctx, h: &History, shift: u64, threads: bool) 
             let hh = h.clone();
             let prop = ctx.prop.clone();
             let (tier, seed, shard, nshards) = (ctx.tier, ctx.seed, ctx.shard, ctx.nshards);
-            let cfg = RunCfg { drain_polls: true, trap_clock: true, shift_ms: k * 977, noise_agents: k % 2 == 1, ..Default::default() };
+            let cfg = RunCfg { drain_polls: true, trap_clock: true, log_observations: true, shift_ms: k * 977, noise_agents: k % 2 == 1, ..Default::default() };
             move || {
                 let mut c2 = Ctx::new_quiet(&prop, tier, seed, shard, nshards);
                 let r = run_history(&mut c2, &hh, &cfg);
@@ -518,6 +612,54 @@ pub fn check_c20_history(ctx: &mut Ctx, h: &History, shift: u64, threads: bool) 
         for (k, l) in logs {
             compare_logs(ctx, h, if k == 0 { "spawned-thread" } else { "concurrent-threads" }, &base.log, &l, 0);
         }
+    }
+}
+
+/// "Instants passed to one call do not leak into another transaction's schedule": run the history
+/// without draining (polls at different instants serve simultaneously due transactions one by one)
+/// under the reference model.  If the model is violated on the full history but holds on every
+/// projection of the history onto a single transaction id (same polls, same instants), the
+/// deviation is caused by the *other* transactions' calls: interference, a C20 matter.  (A
+/// deviation that also shows on a projection is a plain C05/C06/C18 defect and is left to those
+/// checks.)
+fn check_no_interference(ctx: &mut Ctx, h: &History) {
+    let cfg = RunCfg { trap_clock: true, ..Default::default() };
+    let full = run_history(ctx, h, &cfg);
+    ctx.count("non-drain-model-runs");
+    let Some(tag) = full.failed_tag else {
+        return;
+    };
+    if !(tag.starts_with("C05") || tag.starts_with("C06") || tag.starts_with("C18")) {
+        return;
+    }
+    let tid_of = |o: &Op| match o {
+        Op::Send { kind: MsgKind::Request, tid, .. } | Op::Response { tid, .. } | Op::Cancel(tid) | Op::CancelRetrans(tid) | Op::Configure { tid, .. } => Some(*tid % NTID as u8),
+        _ => None,
+    };
+    let tids: BTreeSet<u8> = h.ops.iter().filter_map(tid_of).collect();
+    if tids.len() < 2 {
+        return;
+    }
+    let mut clean = true;
+    for t in &tids {
+        let ops: Vec<Op> = h.ops.iter().filter(|o| tid_of(o).map_or(true, |x| x == *t)).cloned().collect();
+        let hp = History { tcp: h.tcp, remote0: h.remote0, remote_addr: h.remote_addr, ops };
+        if run_history(ctx, &hp, &cfg).failed_tag.is_some() {
+            clean = false;
+            break;
+        }
+        ctx.count("projection-runs");
+    }
+    if clean {
+        ctx.violation(
+            "C20",
+            "transactions-do-not-interfere",
+            "StunAgent",
+            tag.split('|').nth(1).unwrap_or(""),
+            || h.to_json(),
+            "every transaction behaves as in the projection of the history onto its own calls (the reference model holds on each projection)".into(),
+            format!("the model is violated only when the transactions run together: {tag}"),
+        );
     }
 }
 
